@@ -49,6 +49,8 @@ def run(prog, rep):
     from ..engines import e5_writers as e5
     rep.rule("E5.var", "VariableMap::add refuses every second definition; VariableMap::set writes mutable bindings only")
     e5.variable_map_shape(prog, rep, "E5.var")
+    e5.mutability_flags(prog, rep)
+    e5.no_dropped_elements(prog, rep)
     rep.rule("E2.d", "the result of every fallible call in the interpreter, graph, variables and functions modules is propagated, returned, "
                      "matched with an error-returning Err arm, or is a listed intentional absorption")
     files = ("src/execution/strict.rs", "src/execution.rs", "src/graph.rs", "src/variables.rs", "src/functions.rs", "src/execution/lazy.rs",
